@@ -606,13 +606,23 @@ def run_backend(kind, seq, upto, probe='both', only=None):
     mode = lambda j: (probe if (only is None or only == j) else 'none')
     outs = [apply_backend(ds, op, mode(j)) for j, op in enumerate(seq[:upto])]
     if upto == len(seq):
-        outs += [apply_backend(ds, op, mode(upto + j)) for j, op in enumerate(DUMP)]
+        if probed_dump(seq):
+            outs += [apply_backend(ds, op, mode(upto + j)) for j, op in enumerate(DUMP)]
         outs += [apply_backend(ds, op, 'none') for op in DUMP]
     return outs
 
 
+PROBE_READS_MAXLEN = [10 ** 6]
+
+
+def probed_dump(seq):
+    """the pass-by-value probe of the read-back calls does not depend on how the state was reached: beyond a length
+    bound only the plain read-back is done (the probe of the calls of the sequence itself is always on)."""
+    return len(seq) <= PROBE_READS_MAXLEN[0]
+
+
 def first_divergence(seq, m_all, outs):
-    ext = list(seq) + DUMP + DUMP
+    ext = list(seq) + (DUMP + DUMP if probed_dump(seq) else DUMP)
     for i, (a, b) in enumerate(zip(m_all, outs)):
         if not agree(a, b):
             if i < len(seq):
@@ -625,7 +635,7 @@ def first_divergence(seq, m_all, outs):
 
 def model_all(seq, dev=()):
     m_outs, m_dump, stop = run_model(seq, dev)
-    return (m_outs + m_dump + m_dump) if stop is None else m_outs, stop
+    return (m_outs + m_dump + (m_dump if probed_dump(seq) else [])) if stop is None else m_outs, stop
 
 
 _BUDGET = {}
@@ -673,7 +683,7 @@ def check_sequence(seq, backends):
             key = (b, d['kind'])
             _BUDGET[key] = _BUDGET.get(key, 0) + 1
             if _BUDGET[key] <= 4:      # locating the leaking call costs one run per call: only for the first few
-                ext = list(seq[:upto]) + (DUMP if upto == len(seq) else [])
+                ext = list(seq[:upto]) + (DUMP if (upto == len(seq) and probed_dump(seq)) else [])
                 for i in range(len(ext)):
                     if div(run_backend(b, seq, upto, 'arg' if arg else 'result', only=i)) is not None:
                         d['method'] = method_of(ext[i])
@@ -696,7 +706,7 @@ def alphabet(name):
         ['create_sop_next', 's1', 'c1'], ['create_sop', 's1', 'c1', 1], ['update_sop', 's1', 'c1', 1, True], ['update_sop', 's1', 'c1', 2, True],
         ['list_sops', 's1', 'c1', True], ['get_sop', 's1', 'c1', 1],
         ['create_eop', 's1', 1], ['update_eop', 's1', 1, 1], ['update_eop', 's1', 2, 1],
-        ['update_metadata', 's1', [['a', 'x']], []], ['update_metadata', 's1', [['b', 'y']], [['1', 'k', 'v'], ['3', 'k', 'w']]],
+        ['update_metadata', 's1', [['a', 'x']], []], ['update_metadata', 's1', [['b', 'y']], [['3', 'k', 'w'], ['1', 'k', 'v']]],
         ['update_metadata', 's1', [['c', 'z']], [['1', 'k', 'v'], ['0', 'k', 'w']]],
         ['raw', 'get_trial', 'owners/o/studies/s1/trials/001'], ['raw', 'get_trial', 'owners/o/studies/s1'],
         ['raw', 'load_study', 'owners/o'],
@@ -727,6 +737,17 @@ TARGETED = [
     # RAM update_*_operation on a missing operation (recorded finding)
     [['create_study', 's1', 0], ['create_sop_next', 's1', 'c1'], ['update_sop', 's1', 'c1', 2, True], ['list_sops', 's1', 'c1', False]],
     [['create_study', 's1', 0], ['update_eop', 's1', 1, 1], ['get_eop', 's1', 1]],
+    # one metadata update naming several trials in an order that is neither the order of their names nor of their ids,
+    # read back afterwards (each named trial gets exactly its own group, every other trial is untouched)
+    [['create_study', 's1', 0], ['create_trial', 's1', 1, 0], ['create_trial', 's1', 2, 0], ['create_trial', 's1', 3, 0],
+     ['update_metadata', 's1', [['a', 'x']], [['3', 'k', 'three'], ['2', 'k', 'two'], ['3', 'j', 'three-j']]],
+     ['get_trial', 's1', 2], ['get_trial', 's1', 3], ['get_trial', 's1', 1], ['list_trials', 's1']],
+    [['create_study', 's1', 0]] + [['create_trial', 's1', t, 0] for t in (9, 10, 11, 2)] +
+    [['update_metadata', 's1', [], [['9', 'k', 'nine'], ['10', 'k', 'ten'], ['11', 'k', 'eleven']]],
+     ['get_trial', 's1', 9], ['get_trial', 's1', 10], ['get_trial', 's1', 11], ['get_trial', 's1', 2], ['list_trials', 's1'],
+     ['update_metadata', 's1', [], [['11', 'k', 'eleven-b'], ['2', 'k', 'two'], ['10', 'k', 'ten-b']]], ['list_trials', 's1']],
+    [['create_study', 's1', 0], ['create_study', 's2', 0], ['create_trial', 's2', 1, 0], ['create_trial', 's1', 3, 0], ['create_trial', 's1', 1, 0],
+     ['update_metadata', 's1', [['b', 'y']], [['3', 'k', 'v'], ['1', 'k', 'w']]], ['list_trials', 's1'], ['list_trials', 's2']],
     # more than nine suggestion operations of one client (operation ids are strings: '.../10' sorts before '.../9')
     [['create_study', 's1', 0]] + [['create_sop', 's1', 'c1', n] for n in range(1, 11)] + [['max_sop', 's1', 'c1'], ['create_sop_next', 's1', 'c1'],
                                                                                             ['max_sop', 's1', 'c1'], ['list_sops', 's1', 'c1', False]],
@@ -739,6 +760,18 @@ TARGETED = [
 
 
 # ------------------------------------------------------------------------------------------ exploration
+def model_state(seq):
+    m = Model()
+    for op in seq:
+        if apply_model(m, op)[0] == 'unspecified':
+            return None
+    return json.dumps([sorted(m.owners), list(m.studies.items()), [(k, list(v.items())) for k, v in sorted(m.trials.items())],
+                       [(list(k), list(v.items())) for k, v in sorted(m.sops.items())], [(k, sorted(v.items())) for k, v in sorted(m.eops.items())]])
+
+
+PRUNE_NOOPS = [False]
+
+
 def _work(args):
     seqs, backends = args
     out, notes, dead = [], [], []
@@ -746,7 +779,9 @@ def _work(args):
         res, nts, is_dead = check_sequence(seq, backends)
         out += res
         notes += nts
-        if is_dead:
+        # quick tier: a sequence whose last call leaves the (contract) state as it was is not extended -- the same
+        # continuations are explored from the shorter sequence without that call
+        if is_dead or (PRUNE_NOOPS[0] and not res and seq and model_state(seq) == model_state(seq[:-1])):
             dead.append(seq)
     return out, notes, dead
 
@@ -779,6 +814,9 @@ def summarise(divs, notes, n_seq, t0, extra=None):
 
 def allow_deviations(p):
     """only the deviations named in the payload (= findings still open in known_findings.d) may explain a divergence."""
+    PRUNE_NOOPS[0] = bool(p.get('prune_noops', False))
+    if 'probe_reads_maxlen' in p:
+        PROBE_READS_MAXLEN[0] = int(p['probe_reads_maxlen'])
     if 'deviations' in p:
         for b in list(DEVIATIONS):
             DEVIATIONS[b] = [d for d in DEVIATIONS[b] if d in p['deviations']]
@@ -803,7 +841,9 @@ def explore(p):
                 seqs = jobs0 + seqs
             n_seq += len(seqs)
             chunk = max(1, min(400, len(seqs) // (workers * 4) + 1))
-            parts = [(seqs[i:i + chunk], backends) for i in range(0, len(seqs), chunk)]
+            # the sqlite *file* differs from :memory: only in durability: optionally enumerated to a smaller length
+            bl = [b for b in backends if b != 'sql_file' or L <= int(p.get('file_maxlen', maxlen))]
+            parts = [(seqs[i:i + chunk], bl) for i in range(0, len(seqs), chunk)]
             results = pool.map(_work, parts) if pool is not None else [_work(x) for x in parts]
             dead = set()
             for o, n, d in results:
